@@ -22,6 +22,7 @@ import (
 	"time"
 
 	"github.com/superfly/litefs/verifharness/core"
+	"github.com/superfly/litefs/verifharness/faults"
 	"github.com/superfly/litefs/verifharness/sim"
 )
 
@@ -592,6 +593,8 @@ func main() {
 		mustViolate(rep, "lead_hwm2", "MC_Backup_lead_hwm2.cfg", "LeadNoRepeatLoss")
 		mustViolate(rep, "rel_hot", "MC_Backup_rel_hot.cfg", "RestoreDiscardsInterrupted|ImageAtPosition")
 	}
+	// failure paths (spec/Faults.tla): every call of the operation through the OS interface fails once
+	faults.Run(rep, args, faults.Select{Ops: []string{"backup_sync"}, Monitors: []string{"backup"}})
 	rep.Finish()
 }
 
